@@ -10,10 +10,10 @@ from props.common import *
 from vfw import x690ref as R
 from vfw.schema import T
 
-BOUNDS = ("constrained types: BIT STRING SIZE (2..4) (two decodes in a row); INTEGER (0..10); INTEGER (0..20) EXCEPT (3..5 | 11..13 | 18); INTEGER (0..2 | 7 | 9 | 15..16); OCTET STRING SIZE (1..2); SEQUENCE OF INTEGER (0..10) SIZE (1..2); SET OF likewise; SEQUENCE {a INTEGER (0..10), b OCTET STRING SIZE (1..2) "
+BOUNDS = ("constrained types: SEQUENCE/SET {a, b?, c?} (WITH COMPONENTS {b PRESENT, c ABSENT}); BIT STRING SIZE (2..4) (two decodes in a row); INTEGER (0..10); INTEGER (0..20) EXCEPT (3..5 | 11..13 | 18); INTEGER (0..2 | 7 | 9 | 15..16); OCTET STRING SIZE (1..2); SEQUENCE OF INTEGER (0..10) SIZE (1..2); SET OF likewise; SEQUENCE {a INTEGER (0..10), b OCTET STRING SIZE (1..2) "
           "OPTIONAL, c BOOLEAN DEFAULT FALSE}; SET {a, b?} ; inputs = reference encodings of a neighbouring, unconstrained type with symbolic slots (values -2..12, lengths 0..3, "
           "0..3 elements, members missing / repeated / extra / permuted, definite and indefinite length), decoders BER/CER/DER")
-OUTSIDE = "constraint kinds other than value range, size and mandatory presence; deeper nesting"
+OUTSIDE = "constraint kinds other than value range, exclusion/union, size, mandatory presence and WITH COMPONENTS presence/absence; deeper nesting"
 
 VR = constraint.ValueRangeConstraint(0, 10)
 SZ = constraint.ValueSizeConstraint(1, 2)
@@ -183,6 +183,43 @@ def record(dec, indef, ha, a, hb, bn, b0, hc, c, dup, extra, swap):
     return _after(S_C, w, msg)
 
 
+# SEQUENCE/SET { a INTEGER (0..10), b OCTET STRING OPTIONAL, c BOOLEAN OPTIONAL } (WITH COMPONENTS { ..., b PRESENT, c ABSENT })
+_PC_NT = namedtype.NamedTypes(namedtype.NamedType("a", I_C), namedtype.OptionalNamedType("b", univ.OctetString()), namedtype.OptionalNamedType("c", univ.Boolean()))
+_PC_SPEC = constraint.WithComponentsConstraint(("b", constraint.ComponentPresentConstraint()), ("c", constraint.ComponentAbsentConstraint()))
+P_SEQ = univ.Sequence(componentType=_PC_NT).subtype(subtypeSpec=_PC_SPEC)
+P_SET = univ.Set(componentType=_PC_NT).subtype(subtypeSpec=_PC_SPEC)
+
+
+def presence(dec, is_set, indef, a, hb, hc, c, nested):
+    """Component-presence constraints: b PRESENT, c ABSENT; the record also as a member of an outer SEQUENCE."""
+    kind = "SET" if is_set else "SEQ"
+    nt = T(kind, comps=[("a", N_INT, "req", None), ("b", N_OCTS, "opt", None), ("c", N_BOOL, "opt", None)])
+    av = {"a": a}
+    if hb:
+        av["b"] = b"k"
+    if hc:
+        av["c"] = c
+    spec = P_SET if is_set else P_SEQ
+    if nested:
+        nt = T("SEQ", comps=[("r", nt, "req", None), ("z", N_INT, "opt", None)])
+        av = {"r": av, "z": 1}
+        spec = univ.Sequence(componentType=namedtype.NamedTypes(namedtype.NamedType("r", spec), namedtype.OptionalNamedType("z", univ.Integer())))
+    octets = bytes(R.ber_nd(nt, av, _Indef(indef)))
+    if dec == 2 and indef:
+        raise Skip()
+    w = _try(dec, octets, spec)
+    if w is None:
+        return None
+    msg = None
+    if not (0 <= a <= 10):
+        msg = "a = %d outside (0..10)" % a
+    elif not hb:
+        msg = "member b is absent although WITH COMPONENTS says PRESENT"
+    elif hc:
+        msg = "member c is present although WITH COMPONENTS says ABSENT"
+    return _after(spec, w, msg)
+
+
 def setrec(dec, indef, ha, a, hb, bn, b0, dup, extra, swap):
     parts = []
     if ha:
@@ -222,6 +259,9 @@ def setrec(dec, indef, ha, a, hb, bn, b0, dup, extra, swap):
 
 V = I(-2, 12)
 OBLIGATIONS = [
+    Obl("presence", presence, {"dec": I(0, 2), "is_set": B, "indef": B, "a": I(-1, 11), "hb": B, "hc": B, "c": B, "nested": B},
+        shards=[{"dec": C(d_), "is_set": C(s_)} for d_ in range(3) for s_ in (False, True)], budget=120,
+        doc="SEQUENCE/SET with WITH COMPONENTS (b PRESENT, c ABSENT), top level and nested, definite/indefinite: accepted => the presence constraints hold"),
     Obl("bits_twice", bits_twice, {"dec": I(0, 2), "n1": I(0, 6), "n2": I(0, 6), "v": I(0, 3), "nested": B}, shards=[{"dec": C(d_)} for d_ in range(3)], budget=120,
         doc="BIT STRING SIZE (2..4): two encodings with the same number and different lengths decoded in a row under one type object"),
     Obl("scalar_excl", scalar_excl, {"dec": I(0, 2), "v": I(-3, 23), "nested": B}, budget=90,
